@@ -119,7 +119,7 @@ func gen(r *verifsim.Rng, tier string) (any, hx.Sched) {
 		} else if in.Class == "G4" {
 			op.Mem = verifsim.Pick(r, []string{"a", "b", "c", "d", "d"})
 		} else {
-			op.Mem = verifsim.Pick(r, []string{"a", "b"})
+			op.Mem = verifsim.Pick(r, []string{"a", "b", "kw", "kwn"}) // kw, kwn: members whose type names BOTH parameters
 		}
 		if op.Mem == "ctor" {
 			op.Args = in.Args
@@ -230,6 +230,8 @@ class C6U { public function __construct(public U $x) { } }
 class G2<K, W> {
   public K $a;
   public W $b;
+  public K|W $kw;
+  public K|W|null $kwn = null;
 }
 class G4<A, B, C, D> {
   public A $a;
@@ -244,6 +246,8 @@ class CU { public U $p; public ?U $q = null; public U|null $u = null; public fun
 function wp($o, $v) { try { $o->p = $v; return "A"; } catch (\Throwable $e) { return "R"; } }
 function wq($o, $v) { try { $o->q = $v; return "A"; } catch (\Throwable $e) { return "R"; } }
 function wu($o, $v) { try { $o->u = $v; return "A"; } catch (\Throwable $e) { return "R"; } }
+function wkw($o, $v) { try { $o->kw = $v; return "A"; } catch (\Throwable $e) { return "R"; } }
+function wkwn($o, $v) { try { $o->kwn = $v; return "A"; } catch (\Throwable $e) { return "R"; } }
 function wa($o, $v) { try { $o->a = $v; return "A"; } catch (\Throwable $e) { return "R"; } }
 function wb($o, $v) { try { $o->b = $v; return "A"; } catch (\Throwable $e) { return "R"; } }
 function wc($o, $v) { try { $o->c = $v; return "A"; } catch (\Throwable $e) { return "R"; } }
@@ -273,7 +277,7 @@ func renderOp(op Op, idx int) string {
 		// constructs a G6 with the SAME type arguments as the instance, passing the value to a promoted parameter
 		return fmt.Sprintf("__rec(\"w%d\", (function() { try { $x = new G6<%s>(%s); return \"A\"; } catch (\\Throwable $e) { return \"R\"; } })());\n", idx, strings.Join(op.Args, ", "), valueExpr[op.Val])
 	}
-	fn := map[string]string{"p": "wp", "q": "wq", "u": "wu", "a": "wa", "b": "wb", "set": "wset", "put": "wput", "c": "wc", "d": "wd", "fill": "wfill", "made": "wmade"}[op.Mem]
+	fn := map[string]string{"p": "wp", "q": "wq", "u": "wu", "kw": "wkw", "kwn": "wkwn", "a": "wa", "b": "wb", "set": "wset", "put": "wput", "c": "wc", "d": "wd", "fill": "wfill", "made": "wmade"}[op.Mem]
 	if op.Rep > 1 {
 		return fmt.Sprintf("for ($rep = 0; $rep < %d; $rep++) { $last = %s($o%d, %s); }\n__rec(\"w%d\", $last);\n", op.Rep, fn, op.Inst, valueExpr[op.Val], idx)
 	}
@@ -448,7 +452,7 @@ func exec(t *testing.T, x any, s hx.Sched) *hx.Outcome {
 			if op.Mem == "q" || op.Mem == "u" || op.Mem == "ctor" {
 				ckey = fmt.Sprintf("c.%s.%s.%s", op.Mem, targ, op.Val)
 			}
-			if op.Mem == "fill" || op.Mem == "made" {
+			if op.Mem == "fill" || op.Mem == "made" || op.Mem == "kw" || op.Mem == "kwn" {
 				ckey = "" // what `new T()` builds has no non-generic counterpart; the solo oracle covers it
 			}
 			if want, ok := concrete[ckey]; ok && sOK != want {
@@ -468,6 +472,8 @@ func memKind(m string) string {
 		return "nullable-property"
 	case "u":
 		return "union-property"
+	case "kw", "kwn":
+		return "two-parameter-union-property"
 	case "ctor":
 		return "constructor-parameter"
 	}
